@@ -34,6 +34,14 @@ class Path:
         self.engine, self.script = engine, list(script)
         self.trace, self.pc, self.obligations = [], [], []
         self.notes = []
+        self._solver, self._synced = None, 0
+        self.qfacts = []        # universally quantified facts as functions index-term -> z3 Bool (instantiated at skolems)
+
+    def add_qfact(self, f):
+        self.qfacts.append(f)
+
+    def instances(self, idx):
+        return [f(idx) for f in self.qfacts]
 
     def assume(self, cond):
         if isinstance(cond, bool):
@@ -54,14 +62,25 @@ class Path:
         if z3.is_false(c):
             return False
         self.engine.stats["feasibility_checks"] += 1
-        s = z3.Solver()
-        s.set("timeout", self.engine.feas_timeout_ms)
-        s.add(*self.pc)
-        s.add(c)
+        s = self.solver()
         t0 = time.time()
+        s.push()
+        s.add(c)
         r = s.check()
+        s.pop()
         self.engine.stats["feasibility_s"] += time.time() - t0
         return r != z3.unsat
+
+    def solver(self):
+        """Incremental solver kept in sync with this path's condition."""
+        if self._solver is None:
+            self._solver = z3.Solver()
+            self._solver.set("timeout", self.engine.feas_timeout_ms)
+            self._synced = 0
+        while self._synced < len(self.pc):
+            self._solver.add(self.pc[self._synced])
+            self._synced += 1
+        return self._solver
 
     def choose(self, conds, structural=False):
         """Pick one of mutually exclusive alternatives (z3 Bools; True for structural forks)."""
